@@ -136,6 +136,8 @@ func init() {
 		it.p.noteInjective("bech32", enc)
 		it.p.assertAxiom(Eq(enc, t))
 		it.p.assertAxiom(Not(Eq(App("len", bvSort(64), r), BVu(64, 0))))
+		// a bech32 string has a human-readable part, the separator and six checksum characters: never fewer than 8 bytes
+		it.p.assertAxiom(BVCmp("bvuge", App("len", bvSort(64), t), BVu(64, 8)))
 		return Tuple{&StrV{T: r}, IfaceV{}}
 	}
 	// ParseHeight(Height.String()) on an opaque rendering: the exact inverse (the byte-level round trip is checked in C19)
